@@ -665,6 +665,6 @@ def classify_struct(case):
 
 
 SUBCHECKS = [
-    Subcheck("numeric", numeric_cases, check_numeric, classify_numeric, quick=4000, thorough=200000),
-    Subcheck("structured", struct_cases, check_struct, classify_struct, quick=2500, thorough=100000),
+    Subcheck("numeric", numeric_cases, check_numeric, classify_numeric, quick=12000, thorough=200000),
+    Subcheck("structured", struct_cases, check_struct, classify_struct, quick=7500, thorough=100000),
 ]
